@@ -459,6 +459,18 @@ def user_criteria():
     return MeanLoss, QuadUtilityLoss, Exp2Loss
 
 
+def sum_criterion():
+    """A user criterion with reduction 'sum': its value on a constant sample depends on the number of paths, its certainty
+    equivalent does not (it is the one of Exp2Loss)."""
+    from pfhedge.nn import HedgeLoss
+
+    class SumExp2Loss(HedgeLoss):
+        def forward(self, input, target=0.0):
+            return torch.exp2(-(input - target)).sum(0)
+
+    return SumExp2Loss
+
+
 def cash_replay(ctx: Ctx, recs: List[Dict[str, Any]]) -> None:
     import pfhedge.nn as nn
     MeanLoss, QuadUtilityLoss, Exp2Loss = user_criteria()
@@ -481,6 +493,7 @@ def cash_replay(ctx: Ctx, recs: List[Dict[str, Any]]) -> None:
             crits.append((f"EntropicLoss({a2}ln2)", nn.EntropicLoss(a2 * LN2), ce, True, 1e-11, small))
         ce = [-log2frac(fr(rs[i]["m2"][0])) for i in small]
         crits.append(("user Exp2Loss (default search)", Exp2Loss(), ce, True, 4e-6, small))
+        crits.append(("user SumExp2Loss (default search)", sum_criterion()(), ce, True, 4e-6, small))
         crits.append(("user MeanLoss (default search)", MeanLoss(), [float(fr(r["mean"])) for r in rs], False, 4e-6, allc))
         q = [i for i, r in enumerate(rs) if r["max"] <= 4]
         ceq = []
@@ -502,6 +515,24 @@ def cash_replay(ctx: Ctx, recs: List[Dict[str, Any]]) -> None:
             fam = name.split("(")[0].strip()
             Xc = X[:, cols]
             # three call shapes: every column on its own, all columns at once, and with a target
+            # certainty equivalents move with the sample: cash(x + c) = cash(x) + c, also for samples of large profits or large
+            # losses only, where exp(-a x) leaves the range in which a naive mean-exp-log is accurate (closed forms only)
+            if fam in ("EntropicRiskMeasure", "EntropicLoss") and ce is not None:
+                base = torch.tensor(ce, dtype=dtype)
+                # shifts keep a*(x + c) inside the range where the criterion's own value mean exp(-a x) is a normal float
+                # (|a x| < 700 in float64, < 85 in float32): beyond it the expected utility itself is not representable
+                for c, dt2, tol2 in ((100.0, torch.float64, 1e-9), (-100.0, torch.float64, 1e-9), (200.0, torch.float64, 1e-9), (30.0, torch.float32, 2e-5), (-30.0, torch.float32, 2e-5)):
+                    try:
+                        got = crit.cash((Xc + c).to(dt2)).double()
+                    except Exception as e:
+                        ctx.violation(f"cash:{fam}:raises", f"{name}.cash raised {type(e).__name__} on a sample shifted by {c}", {"error": repr(e)[:200]})
+                        continue
+                    ctx.count(n=len(cols))
+                    bad = ~((got - (base + c)).abs() <= tol2 * (1 + (base + c).abs()))
+                    if bool(bad.any()):
+                        i = int(bad.nonzero()[0])
+                        ctx.violation(f"cash:{fam}:shifted-sample", f"{name}.cash of a sample shifted by {c} ({dt2}) is not the cash amount of the sample plus {c}",
+                                      {"x": rs[cols[i]]["x"], "shift": c, "expected": (base[i] + c).item(), "observed": got[i].item()})
             modes = [("multi-column (N,M)", lambda: crit.cash(Xc)),
                      ("with target", lambda: crit.cash(Xc + 1.5, target=torch.full_like(Xc, 1.5))),
                      ("column by column", lambda: torch.stack([crit.cash(Xc[:, i]) for i in range(min(Xc.size(1), 24))]))]
